@@ -27,8 +27,19 @@ def replay_model(rep):
     return False, {"mode": "exhaustive BV operands + generated formulas: nothing found"}
 
 
+def replay_substitution(rep):
+    from native import bounded_more
+    for seed in (int(rep.get("seed", 0)), 1, 2):
+        r = bounded_more.substitution_check("quick", seed)
+        if r["violations"]:
+            return True, {"mode": "generated formulas x sub-term maps vs recursive definition / substitution lemma", "failure": r["violations"][0]}
+    return False, {"mode": "generated formulas x sub-term maps: nothing found"}
+
+
 def dispatch(rep):
     kind = rep.get("kind")
+    if kind == "substitution":
+        return replay_substitution(rep)
     if kind == "model":
         return replay_model(rep)
     if kind == "tracking":
